@@ -57,9 +57,16 @@ type harness struct {
 	qs      map[[2]int]chan os.Signal
 }
 
-// Run executes the scenario in a fresh synctest bubble.
+// Run executes the scenario in a fresh synctest bubble. It runs the bubble in a subtest of t: when the
+// race detector has reported something, the testing package unwinds the goroutine that called
+// synctest.Test (runtime.Goexit), which must not take the worker's sweep down with it.
 func Run(t *testing.T, sc *Scenario) *Result {
 	res := &Result{}
+	t.Run("run", func(t *testing.T) { runInto(t, sc, res) })
+	return res
+}
+
+func runInto(t *testing.T, sc *Scenario, res *Result) {
 	races0 := vnet.RaceErrors()
 
 	saved := time.Local
@@ -77,6 +84,8 @@ func Run(t *testing.T, sc *Scenario) *Result {
 	dateNotes = nil
 
 	var sim *vnet.Sim
+	// everything after the bubble also runs when the goroutine is being unwound
+	defer func() { collect(res, sim, races0) }()
 	func() {
 		defer func() {
 			if r := recover(); r != nil {
@@ -89,7 +98,6 @@ func Run(t *testing.T, sc *Scenario) *Result {
 		res.G0 = runtime.NumGoroutine()
 		synctest.Test(t, func(t *testing.T) {
 			h := &harness{sc: sc, qs: map[[2]int]chan os.Signal{}}
-			hip, _ := netip.ParseAddr(sc.HostIP)
 			var bc []netip.Addr
 			for _, b := range sc.Bcast {
 				if a, err := netip.ParseAddr(b); err == nil {
@@ -108,7 +116,7 @@ func Run(t *testing.T, sc *Scenario) *Result {
 			}
 			sim = vnet.New(vnet.Config{
 				Seed: sc.Seed, Tape: sc.Tape, UseTape: sc.UseTape,
-				HostIPs: []netip.Addr{hip}, Bcast: bc, Foreign: sc.Foreign, Faults: sc.Faults,
+				HostIPs: hostIPs(sc), Bcast: bc, Foreign: sc.Foreign, Faults: sc.Faults,
 				Horizon: horizon, World: newWorld(sc),
 			})
 			h.sim = sim
@@ -128,6 +136,9 @@ func Run(t *testing.T, sc *Scenario) *Result {
 			synctest.Wait()
 		})
 	}()
+}
+
+func collect(res *Result, sim *vnet.Sim, races0 int) {
 	// every goroutine of the bubble has exited by now (or the bubble panicked); runtime helpers
 	// (finalizers, cleanups) are counted while they run, so a surplus must persist to count
 	res.G1 = runtime.NumGoroutine()
@@ -155,7 +166,6 @@ func Run(t *testing.T, sc *Scenario) *Result {
 	if res.Races > 0 {
 		res.RaceLog, res.RaceSig = raceReport()
 	}
-	return res
 }
 
 var raceLogOff int64
@@ -240,6 +250,16 @@ func leakedStacks(dump string) string {
 		}
 	}
 	return strings.Join(keep, "\n\n")
+}
+
+func hostIPs(sc *Scenario) []netip.Addr {
+	var out []netip.Addr
+	for _, x := range []string{sc.HostIP, sc.HostIP2} {
+		if a, err := netip.ParseAddr(x); err == nil {
+			out = append(out, a)
+		}
+	}
+	return out
 }
 
 func addrPort(s string) netip.AddrPort {
